@@ -85,6 +85,9 @@ class _Diffs(Stub):
 
 
 class NPx(Stub):
+    nan = float("nan")
+    inf = float("inf")
+
     @staticmethod
     def sqrt(x): return SX(sp.sqrt(_e(x)))
 
@@ -154,9 +157,42 @@ class NPx(Stub):
     float64 = float
 
 
-def _components(names: List[str]) -> Dict[str, Any]:
-    return {c: AbsObj({"OptimizedResult"}, wSSE=SX(sym(f"wSSE_{i}")), N=SX(sym(f"N_{i}")), resid=SX(sym(f"resid_{i}")), obs=SX(sym(f"obs_{i}")))
+def _components(names: List[str], tag: str = "") -> Dict[str, Any]:
+    return {c: AbsObj({"OptimizedResult"}, wSSE=SX(sym(f"wSSE{tag}_{i}")), N=SX(sym(f"N{tag}_{i}")), resid=SX(sym(f"resid{tag}_{i}")), obs=SX(sym(f"obs{tag}_{i}")))
             for i, c in enumerate(names)}
+
+
+class _Model(AbsObj, BoundRepoMethods):
+    pass
+
+
+def constructed(chk, cls_info, it, stand, **attrs):
+    """An abstract model object carrying the instance attributes its own constructor creates (interpreted from the AST with the
+    settings replaced by an opaque stand-in), so that bookkeeping attributes a method relies on exist, with their initial values."""
+    me = _Model({cls_info.name, "DailyModel"})
+    me._bind_repo(chk, cls_info, it, stand)
+    init = chk.res.find_method(cls_info, "__init__")
+    if init is not None:
+        def _init_settings(*a, **k):
+            me.settings = Opaque("settings")
+        object.__setattr__(me, "_initialize_settings", StubCall(_init_settings))
+        class _WW(Stub):
+            _num_dict = {1: "weekday", 2: "weekday", 3: "weekday", 4: "weekday", 5: "weekday", 6: "weekend", 7: "weekend"}
+        class _Settings(Stub):
+            weekday_weekend = _WW()
+        def _init_settings2(*a, **k):
+            me.settings = _Settings()
+        object.__setattr__(me, "_initialize_settings", StubCall(_init_settings2))
+        try:
+            Function(init.node, ModuleEnv(chk.repo, init.module, it, dict(stand, np=stand.get("np", NPx()))), it)(me)
+        except InterpRaised as e:
+            raise AnalysisError(f"{init.key}: the constructor raises {e.exc_name} on default arguments")
+        except Unsupported as e:
+            raise AnalysisError(f"{init.key}: uses an operation outside the modelled subset: {e}")
+        del me.__dict__["_initialize_settings"]
+    for k, v in attrs.items():
+        setattr(me, k, v)
+    return me
 
 
 def reference(n_components: int) -> List[Any]:
@@ -186,8 +222,8 @@ def error_metric_outcomes(chk, cls_info, gem) -> List[Dict[str, Any]]:
         comps = combo.split("__")
         it = Interp(step_limit=50_000)
         env = ModuleEnv(chk.repo, gem.module, it, {"np": NPx(), "numpy": NPx()})
-        me = AbsObj({cls_info.name, "DailyModel"}, fit_components=_components(comps), best_combination=combo)
         for given in (combo, None):
+            me = constructed(chk, cls_info, it, {"np": NPx(), "numpy": NPx()}, fit_components=_components(comps), best_combination=combo)
             try:
                 res = Function(gem.node, env, it)(me, given)
             except InterpRaised as e:
@@ -219,13 +255,10 @@ def judge_error_metrics(o: Dict[str, Any]) -> List[Tuple[int, str]]:
 def stored_errors(chk, cls_info, fit, gem) -> Dict[str, Any]:
     """Interpret _fit with the real _get_error_metrics (so its container type is the real one) and everything else opaque:
     {name: position of the returned statistic it holds, or a description}."""
-    class _Me(AbsObj, BoundRepoMethods):
-        pass
     it = Interp(step_limit=100_000)
     stand = {"np": NPx(), "numpy": NPx()}
     combo = "wd-su_sh_wi__we-su_sh_wi"
-    me = _Me({cls_info.name, "DailyModel"}, error={}, fit_components=_components(combo.split("__") + ["fw-su_sh_wi"]), settings=Opaque("settings"), warnings=[], disqualification=[])
-    me._bind_repo(chk, cls_info, it, stand)
+    me = constructed(chk, cls_info, it, stand, error={}, fit_components=_components(combo.split("__") + ["fw-su_sh_wi"]), settings=Opaque("settings"), warnings=[], disqualification=[])
     genv = ModuleEnv(chk.repo, gem.module, it, stand)
     gfn = Function(gem.node, genv, it)
     tokens: Dict[int, SX] = {}
@@ -269,7 +302,7 @@ def metrics_stand_in(chk, cls_info, gem, token):
     (tuple or record), so callers may index it, unpack it or read it by field name."""
     it = Interp(step_limit=50_000)
     env = ModuleEnv(chk.repo, gem.module, it, {"np": NPx(), "numpy": NPx()})
-    me = AbsObj({cls_info.name, "DailyModel"}, fit_components=_components(["fw-su_sh_wi"]), best_combination="fw-su_sh_wi")
+    me = constructed(chk, cls_info, it, {"np": NPx(), "numpy": NPx()}, fit_components=_components(["fw-su_sh_wi"]), best_combination="fw-su_sh_wi")
     try:
         proto = Function(gem.node, env, it)(me, "fw-su_sh_wi")
     except (InterpRaised, Unsupported) as e:
@@ -282,3 +315,61 @@ def metrics_stand_in(chk, cls_info, gem, token):
             return Record(proto._cls, dict(zip(proto._cls.fields, toks)))
         return tuple(toks)
     return StubCall(call)
+
+
+
+def refit_outcomes(chk, cls_info, fit, gem) -> Dict[str, Any]:
+    """The same model object is fitted twice, on different data (the fitted components of the second fit carry fresh symbols).  `_fit`
+    and `_get_error_metrics` are the repository's own, interpreted; the fitting work is replaced by stand-ins.  Returned: for each
+    statistic stored by the *second* fit (self.error[...], wRMSE_base) whether it equals the reference over the second fit's
+    components, and which fit's symbols it mentions."""
+    it = Interp(step_limit=200_000)
+    stand = {"np": NPx(), "numpy": NPx()}
+    combo = "wd-su_sh_wi__we-su_sh_wi"
+    names = combo.split("__")
+    me = constructed(chk, cls_info, it, stand, warnings=[], disqualification=[])
+    state = {"tag": "A"}
+
+    def comps():
+        d = _components(names, state["tag"])
+        d.update({"fw-su_sh_wi": AbsObj({"OptimizedResult"}, wSSE=SX(sym(f"wSSE{state['tag']}_u")), N=SX(sym(f"N{state['tag']}_u")),
+                                        resid=SX(sym(f"resid{state['tag']}_u")), obs=SX(sym(f"obs{state['tag']}_u")))})
+        return d
+    for name, val in (("_initialize_data", lambda *a, **k: OpaqueTuple(2, "initialized")), ("_combinations", lambda *a, **k: [combo]),
+                      ("_components", lambda *a, **k: names + ["fw-su_sh_wi"]), ("_fit_components", lambda *a, **k: comps()),
+                      ("_best_combination", lambda *a, **k: combo), ("_final_fit", lambda *a, **k: Opaque("model")),
+                      ("_create_params_from_fit_model", lambda *a, **k: Opaque("params"))):
+        object.__setattr__(me, name, StubCall(val))
+    out: Dict[str, Any] = {}
+    try:
+        for tag in ("A", "B"):
+            state["tag"] = tag
+            Function(fit.node, ModuleEnv(chk.repo, fit.module, it, stand), it)(me, Opaque(f"meter_data_{tag}"))
+    except InterpRaised as e:
+        return {"raises": e.exc_name}
+    except Unsupported as e:
+        raise AnalysisError(f"{fit.key}: uses an operation outside the modelled subset: {e}")
+
+    def ref(tag, ns):
+        def stack(what):
+            parts = [sym(f"{what}{tag}_{i}") for i in ns]
+            return parts[0] if len(parts) == 1 else fun("Stack")(*parts)
+        resid, obs = stack("resid"), stack("obs")
+        wsse = sum(sym(f"wSSE{tag}_{i}") for i in ns)
+        n = sum(sym(f"N{tag}_{i}") for i in ns)
+        rmse = fun("Mean")(resid ** 2) ** sp.Rational(1, 2)
+        return [sp.sqrt(wsse / n), rmse, fun("Mean")(fun("Abs")(resid)), rmse / fun("Mean")(obs), rmse / fun("IQ")(obs, sp.Rational(1, 20), sp.Rational(19, 20))]
+    want = dict(zip(ORDER, ref("B", list(range(len(names))))))
+    err = me.__dict__.get("error")
+    for k in ORDER:
+        v = err.get(k) if isinstance(err, dict) else None
+        if not isinstance(v, SX):
+            out[k] = {"ok": False, "value": repr(v)[:60], "stale": False}
+            continue
+        names_in = {str(x) for x in v.e.free_symbols}
+        out[k] = {"ok": bool(equal(v.e, want[k])), "value": str(v.e)[:120], "stale": any("A_" in n for n in names_in)}
+    base = me.__dict__.get("wRMSE_base")
+    wb = ref("B", ["u"])[0]
+    out["wRMSE_base"] = {"ok": isinstance(base, SX) and bool(equal(base.e, wb)), "value": str(getattr(base, "e", base))[:120],
+                         "stale": isinstance(base, SX) and any("A_" in str(x) for x in base.e.free_symbols)}
+    return out
